@@ -68,7 +68,8 @@ CLAIMS['C09'] = dict(technique=GOCV,
        "chosen by the negotiated content type (422/400 for protocol errors, else 200); content negotiation without explicit header yields one of the two GraphQL media types, empty Accept => application/json; "
        "Server.getTransport returns the first supporting transport; ServeHTTP lets no panic escape and answers 422 once on a recovered panic, 400 without transport. "
        "Content type (repaired defects D15-D17): in GET, POST, application/graphql, urlencoded and multipart-form Do no JSON body is written before writeHeaders ran; writeHeaders always leaves a Content-Type (a configured one of any case, else application/json); "
-       "handler.sendError and transport.SendError type their JSON body (application/json unless the transport chose one) before the single WriteHeader and the single body write.",
+       "handler.sendError and transport.SendError type their JSON body (application/json unless the transport chose one) before the single WriteHeader and the single body write. "
+       "Once the response handler has been invoked (resolvers run in there) no panic may leave a single-payload transport's Do, because ServeHTTP answers an escaped panic with 422: the handler's own panics and writeJson's do escape - known finding D32 (the repository's TestPanics pins that status); any other panic after the handler ran is a violation.",
   note=COMMON_NOTE + "executor interface contract assumed here and proved under C03; header map contents and JSON body validity not decided.")
 
 CLAIMS['C15'] = dict(technique=GOCV,
@@ -103,13 +104,13 @@ PROBE = (" Generated-code parts are probe-proved: gqlgen's generator is run from
 CLAIMS['C04'] = dict(technique=GOCV + "; family contracts instantiated on code regenerated from the templates",
   text="Panic containment with the engine's panic/defer/recover model: every generated field function lets no panic escape and on a recovered panic calls the recover hook exactly once, reports exactly one error and returns null; "
        "fieldContext functions with arguments contain argument-unmarshal panics (hook once, one error); the closures the object executor hands to the concurrent scheduler, the list element closures and the deferred-group goroutine satisfy the spawn rule "
-       "(no panic can leave a goroutine), list element closures still perform their WaitGroup.Done; runtime: Server.ServeHTTP never lets a panic escape and answers a recovered panic with exactly one 422 body, the websocket subscription goroutine lets no panic escape. Closure families (the closures object executors hand to the scheduler: 113, list element closures: 43 in the quick tier) are verified under their own tags; a null NonNull field is counted in the field set the closure is run for (its own parameter), never in a captured one; federation entity resolution (resolveEntity / resolveManyEntities / the per-representation goroutines) is checked on the regenerated entityresolver probe." + PROBE,
+       "(no panic can leave a goroutine), list element closures still perform their WaitGroup.Done; runtime: Server.ServeHTTP never lets a panic escape and answers a recovered panic with exactly one 422 body, the websocket subscription goroutine lets no panic escape; a list element closure that recovered a panic nulls exactly its own slot and never assigns the slice variable shared with its siblings (repaired defect D29: `ret = nil` emptied the list and made the siblings panic); on the streamed transports a panic of the response handler fails that response only (nextResponse, repaired defect D30). Closure families (the closures object executors hand to the scheduler: 113, list element closures: 43 in the quick tier) are verified under their own tags; a null NonNull field is counted in the field set the closure is run for (its own parameter), never in a captured one; federation entity resolution (resolveEntity / resolveManyEntities / the per-representation goroutines) is checked on the regenerated entityresolver probe." + PROBE,
   note=COMMON_NOTE + "User recover/presenter functions assumed not to panic; FieldSet.Dispatch panic-freedom assumed from its registered closures; value preservation outside the failed subtree and liveness not decided.")
 
 CLAIMS['C05'] = dict(technique=GOCV + "; family contracts instantiated on code regenerated from the templates; ghost join accounting",
   text="Liveness itself is not decidable here; two necessary sequential mechanisms are decided. (1) Join completeness: in every generated list marshaler (incl. worker_limit>0) and in FieldSet.Dispatch each WaitGroup.Add is matched by exactly one spawned "
        "goroutine or direct Done per element (loop invariant calls(spawn)+calls(Done)==index) and each spawned closure performs exactly one Done on every path including panics, so wg.Wait() is not left waiting. "
-       "(2) Handler draining: SSE, multipart/mixed and websocket call the response handler until it returns nil on every non-panicking path; the five single-payload HTTP transports do not - recorded as known finding D8 (reproduced: leaked deferred-group goroutines)." + PROBE,
+       "(2) Handler draining: SSE, multipart/mixed and websocket call the response handler until it returns nil on every non-panicking path; the five single-payload HTTP transports do not - recorded as known finding D8 (reproduced: leaked deferred-group goroutines). (3) Lock discipline: in every function under contract no sync.Mutex/RWMutex of gqlgen is locked again while it may be held, neither directly nor by calling one of gqlgen's methods on the same receiver whose syntactic lock summary says it may take that mutex (helpers verified in place included) - a re-acquisition never returns." + PROBE,
   note=COMMON_NOTE + "No scheduler/thread model: bounded-time termination and 'no goroutine alive' are not decided; WaitGroup/semaphore semantics trusted.")
 
 CLAIMS['C13'] = dict(technique=GOCV + "; family contracts instantiated on code regenerated from the templates",
@@ -137,7 +138,7 @@ CLAIMS['C12'] = dict(technique=GOCV,
        "(typestate ghost, closures passed to the locking helper are verified inline under held=true); the connection is closed in the same lock hold that writes `complete` (or before it), write() is a no-op on a closed connection, and Do stops the keep-alive on EVERY exit, panics included (onexit clause) - so no ping follows `complete` and nothing touches the ResponseWriter after the handler returned (repaired defect D9); "
        "writeJsonWithSSE emits one event per payload with one json.Marshal of the response (compact, no raw newline), the completion marker is written exactly once after the single dispatch; "
        "multipartResponseAggregator.flush works entirely under its mutex, writes nothing when nothing is pending, writes the initial payload at most once and clears it, writes the pending incremental payloads at most once in one array and clears them, "
-       "and ends with a delimiter whose 'closing' flag is exactly !hasNext; Add stores payloads under the mutex in arrival order. Every response handler Exec returns marshals into a buffer declared inside the handler call (family exec$closure on the regenerated singlefile server; repaired defect D27: subscription events shared one buffer and were corrupted when multipart/mixed batched them).",
+       "and ends with a delimiter whose 'closing' flag is exactly !hasNext; Add stores payloads under the mutex in arrival order. Every response handler Exec returns marshals into a buffer declared inside the handler call (family exec$closure on the regenerated singlefile server; repaired defect D27: subscription events shared one buffer and were corrupted when multipart/mixed batched them). SSE and multipart/mixed call the response handler only through nextResponse (call sites addressed by the function value's type), which lets no panic of the handler escape, runs the recover hook once and passes on an error response built by the executor: a panic while a value is serialized no longer puts a bare JSON error into the started stream (repaired defect D30).",
   note=COMMON_NOTE + "select/channel operations modelled as nondeterministic choice; exactly-once delivery across goroutines, disconnects and JSON validity (encoding/json) are not decided.")
 
 CLAIMS['C19'] = dict(technique=GOCV,
